@@ -38,6 +38,66 @@ def run(ctx):
     optional_header_forms(ctx)
 
 
+def _loop_env(outs_):
+    loops, louts = {}, {}
+
+    def collect(effs):
+        for e_ in effs:
+            if isinstance(e_, App) and e_.op == "eff:loop":
+                if getattr(e_.node, "lineno", None) is not None:
+                    loops[e_.node.lineno] = (e_.args[0], e_.node.iter.id if isinstance(e_.node, ast.For) and isinstance(e_.node.iter, ast.Name) else None)
+                    if len(e_.args) > 2:
+                        for kv in e_.args[2].args:
+                            louts.setdefault(e_.node.lineno, {})[kv.args[0].v] = kv.args[1]
+                collect(e_.args[1].args)
+            elif isinstance(e_, App) and e_.op == "eff:if":
+                collect(e_.args[1].args)
+                collect(e_.args[2].args)
+            elif isinstance(e_, App) and e_.op in ("eff:alts", "eff:partial"):
+                for a_ in e_.args:
+                    collect(a_.args if isinstance(a_, App) else [])
+    for o in outs_:
+        collect(o.effects)
+        for t_ in [o.value] + list(all_effects(o.effects)):
+            if t_ is None:
+                continue
+            for s_ in subterms(t_):
+                if isinstance(s_, App) and s_.op == "loopout" and len(s_.args) == 3:
+                    louts.setdefault(s_.args[1].v, {})[s_.args[0].v] = s_.args[2]
+    return {"__loops__": loops, "__loopouts__": louts}
+
+
+def _star_round_trip(touts, fouts_):
+    """(renders name1..nameN in order, re-collects them in order) decided by evaluation, or None when not evaluable."""
+    from sa.teval import Stub, Unknown, teval
+    if len(touts) != 1 or len(fouts_) != 1:
+        return None
+    mself = App("attr:map", (App("attr:_metadata", (Sym("param:self"),)),))
+    mcls = App("attr:map", (App("attr:_metadata", (Sym("param:cls"),)),))
+    table = {"first": Stub("T-first"), "item*": Stub("T-item")}
+    render_ok, collect_ok = True, True
+    try:
+        for n in (1, 2, 3, 5):
+            elems = [Stub(f"e{i}") for i in range(n)]
+            env = {mself: dict(table), App("attr:value", (Sym("param:self"),)): elems, **_loop_env(touts)}
+            got = teval(touts[0].value, env)
+            names = ["first"] + [f"item{i}" for i in range(1, n)]
+            want = {nm: ("to_obj", f"e{i}") for i, nm in enumerate(names)}
+            if not isinstance(got, dict) or list(got.items()) != list(want.items()):
+                render_ok = False
+            obj = {nm: f"v-{nm}" for nm in names}
+            env2 = {mcls: dict(table), "param:obj": obj, "param:cls": (lambda v_: ("cls", list(v_))), **_loop_env(fouts_)}
+            got2 = teval(fouts_[0].value, env2)
+            want2 = ("cls", [("from_obj", "T-first" if nm == "first" else "T-item", obj[nm]) for nm in names])
+            if got2 != want2:
+                collect_ok = False
+    except Unknown:
+        return None
+    except Exception:
+        return None
+    return render_ok, collect_ok
+
+
 def optional_header_forms(ctx):
     """SuitHeaderMapOptional.from_obj chooses the alternative itself (it does not try the children in order): what parse renders for each
     alternative - '' for the zero-length byte string, a dict for a header map - must select that very alternative again, or the
@@ -202,6 +262,11 @@ def key_agreement(ctx):
                         star_store = True
     prefix_sel = any(isinstance(s_, App) and s_.op == "meth:startswith" and isinstance(s_.args[1], App) and s_.args[1].op == "meth:replace"
                      and s_.args[1].args[1:] == (Const("*"), Const("")) for o in fouts_ for t_ in [o.value] + list(all_effects(o.effects)) for s_ in subterms(t_))
+    # decided by evaluating both directions on a sample tuple type {first, item*} with one to four elements (whatever the way the
+    # names are numbered / collected); the shape rules above are the fallback when the terms cannot be evaluated
+    star_eval = _star_round_trip(touts, fouts_)
+    if star_eval is not None:
+        star_store, prefix_sel = star_eval
     R.check("C03-D1b inverse conversions of the generic nodes", star_store and prefix_sel,
             "repeated tuple element: name<N> emitted, names with that prefix collected in order", mod=tt.module, node=tt.node, function=ctx.fq(tt),
             expected="key.replace('*', str(running counter)) <-> startswith(key without '*')",
